@@ -12,7 +12,9 @@ import (
 	"sync/atomic"
 	"time"
 
+	"github.com/grailbio/bigslice/exec"
 	"verifh/ev"
+	"verifh/vsys"
 )
 
 // The local executor runs user code and slice readers on goroutines of its own;
@@ -68,6 +70,9 @@ func isGoCrash(stderr string) bool {
 func child(args []string, env []string, out io.Writer) (int, string) {
 	cmd := osexec.Command(os.Args[0], args...)
 	cmd.Env = append(os.Environ(), env...)
+	if scratch != "" {
+		cmd.Env = append(cmd.Env, "TMPDIR="+scratch)
+	}
 	var t tail
 	cmd.Stdout = out
 	cmd.Stderr = &t
@@ -95,12 +100,40 @@ func flagBudgetSet() *string {
 	return &s
 }
 
+// shmDir creates a scratch TMPDIR on tmpfs for the children ("" if not possible).
+// Stale directories of killed earlier runs (older than 2 hours) are removed.
+func shmDir() string {
+	const base = "/dev/shm"
+	if old, err := filepath.Glob(base + "/c01-*"); err == nil {
+		for _, d := range old {
+			if st, err := os.Stat(d); err == nil && time.Since(st.ModTime()) > 2*time.Hour {
+				os.RemoveAll(d)
+			}
+		}
+	}
+	d, err := os.MkdirTemp(base, "c01-")
+	if err != nil {
+		return ""
+	}
+	return d
+}
+
+var scratch string
+
+func cleanupScratch() {
+	if scratch != "" {
+		os.RemoveAll(scratch)
+	}
+}
+
 func supervise(r *ev.Run) {
 	dir, err := os.MkdirTemp("", "c01-journal-")
 	if err != nil {
 		ev.Fatal("journal dir: %v", err)
 	}
 	defer os.RemoveAll(dir)
+	scratch = shmDir()
+	defer cleanupScratch()
 	args := []string{"-child", "-tier", r.Tier, "-workers", strconv.Itoa(*flagWorkers)}
 	if b := *flagBudgetSet(); b != "" {
 		args = append(args, "-budget", b)
@@ -111,11 +144,13 @@ func supervise(r *ev.Run) {
 	code, stderr := child(args, []string{"C01_JOURNAL=" + dir}, os.Stdout)
 	if code == 0 || code == 1 {
 		os.RemoveAll(dir)
+		cleanupScratch()
 		os.Exit(code)
 	}
 	if !isGoCrash(stderr) {
 		os.Stderr.WriteString(stderr)
 		os.RemoveAll(dir)
+		cleanupScratch()
 		ev.Fatal("exploration child exited with status %d", code)
 	}
 	// The child crashed. Which jobs were in flight?
@@ -176,10 +211,12 @@ func supervise(r *ev.Run) {
 				map[string]interface{}{"stderr_tail": headLines(stderr2, 40)})
 		} else {
 			os.Stderr.WriteString(stderr)
+			cleanupScratch()
 			ev.Fatal("exploration child crashed once (%s) but neither the in-flight programs nor a second exploration reproduce it", firstLine(stderr))
 		}
 	}
 	os.RemoveAll(dir)
+	cleanupScratch()
 	r.NotExhaustive(fmt.Sprintf("the driver process crashed after %d runs (simplest programs first); the remaining programs were not run", total))
 	r.Finish(ev.Coverage{
 		"evaluations":         total,
@@ -208,6 +245,8 @@ func runOnly(c *checker, spec string) {
 		ev.Fatal("-only %q out of range", spec)
 	}
 	setChunk(phases[p].chunk)
+	vsys.FastRetries()
+	exec.DoShuffleReaders = false
 	rn := newRunner()
 	j := phases[p].jobs[i]
 	done := make(chan struct{})
